@@ -9,7 +9,7 @@ id = "C01"
 engine = "combinators"
 coq_imports = ["Model.Base", "Model.Events", "Model.Gherkin", "Model.Combinators", "Model.Stats", "Model.Pipeline",
                "Model.StatsSpec", "Check.StatsCase", "Check.C01Check"]
-also = ["C01b", "C01c"]   # what the writers are given (parser errors reach the stream) and which attempts are final
+also = ["C01b", "C01c", "C01d"]   # what the writers are given (parser errors reach the stream) and which attempts are final
 case_type = "scase"
 model_name = "Pipeline.qrun (qfailed)"
 monitor_name = "C01Check.c01_ok (StatsSpec.spec_failed)"
@@ -24,7 +24,7 @@ trusted_base = [
     "Coq 8.16.1 kernel; vm_compute for evaluating model, spec and known-class predicates on cases",
     "hand-written models coq/Model/{Stats,Normalize,Combinators,Pipeline}.v, tied by this differential check",
     "Rust harness /verif/harness (engine combinators, dynpipe.rs), python orchestrator /verif/lib",
-    "Cucumber::run_and_exit panics iff execution_has_failed (src/cucumber.rs:1208, by inspection; exercised by the sched engine)",
+    "Cucumber::run_and_exit panics iff execution_has_failed: hand-written model coq/Model/Exit.v of src/cucumber.rs:1199-1237, tied by the exit engine (C01d)",
 ]
 assumptions = ["streams obey the Runner contract and carry exactly one ParsingFinished (Libtest counts nothing before it)",
                "known-finding class K01a (a hook failing in an attempt that is retried) is excluded by hypothesis and reported"]
